@@ -13,12 +13,12 @@ from fractions import Fraction
 from .. import symx, terms as T, absint
 from ..frontend import AnalysisError, norm_text
 from ..poly import Algebra
-from ..rules import ret_term, outcomes, conjuncts, disjuncts, find_calls, D2R, timearg_scan, int_set, iset_union, iset_compl, with_new_helpers
+from ..rules import ret_term, outcomes, conjuncts, disjuncts, find_calls, D2R, timearg_scan, int_set, iset_union, iset_compl, stateless_scan, with_new_helpers
 from .. import units, guards, effects
 
 MANIFEST = {
     "level": "other",
-    "technique": "static analysis: interval-set reasoning on the path conditions of the symbolically evaluated season finder (refusal and exhaustive dispatch), type-state rule on the +-180 reduction (abstract interpretation of Angle vs number), refusal path rules, exit-criterion bound of the season refinement loop (threshold and gain extracted from the loop), algebraic match of the hour-angle cosine and control dependence of the no-times result, clamp detection on the argument of acos in rise_set (no-event days must surface), unit inference",
+    "technique": "static analysis: interval-set reasoning on the path conditions of the symbolically evaluated season finder (refusal and exhaustive dispatch), type-state rule on the +-180 reduction (abstract interpretation of Angle vs number), refusal path rules, exit-criterion bound of the season refinement loop (threshold and gain extracted from the loop), algebraic match of the hour-angle cosine and control dependence of the no-times result, clamp detection on the argument of acos in rise_set (no-event days must surface), wrap-after-refinement rule for the rise/transit/set times, alias-retention rule for persistent stores in the solar-position routines, unit inference",
     "text": "Refusals (years, latitudes), exhaustive season dispatch with the right target longitudes, the reduction of the equation of time to (-180, 180] degrees being applied to a number rather than to a self-wrapping Angle, and the exact condition under which rise/transit/set reports no times are decided for all inputs; rise_set is shown to hand the raw hour-angle cosine to acos, so days on which the Sun never reaches the standard altitude raise instead of yielding fabricated instants. The 1e-5 deg season accuracy is decided as far as the loop's exit guarantee goes (|dlon| <= asin(THR/G)); convergence itself, spacing, the 25-minute bound and altitude agreement depend on runtime positions and are not decided.",
     "note": "Trusted: bounds quoted in the property (-1000..3000, 66 deg 33'); Angle semantics (arithmetic wraps modulo 360). Undecided: accuracy and spacing of the seasons, equation-of-time magnitude and rate, rise/set altitude agreement.",
 }
@@ -77,6 +77,9 @@ def run(repo, rep, tier):
     units.check_functions(repo, rep, fam)
     guards.check_functions(repo, rep, fam)
     effects.check_functions(repo, rep, fam)
+    # the solar position every clause of this property is measured against must depend on its epoch argument only
+    stateless_scan(repo, rep, fam + [("Sun", "Sun.apparent_geocentric_position"), ("Sun", "Sun.geometric_geocentric_position"),
+                                     ("Epoch", "Epoch.apparent_sidereal_time"), ("Coordinates", "equatorial2horizontal")])
     return "other"
 
 
